@@ -125,6 +125,22 @@ def showState (d : Bytes) : String :=
 structure St where
   sch : Schema
   tuple : Option Bytes
+  /-- the logical row the operations so far denote (tracked only for the specification, i.e. with no defect flag):
+      used for the non-gating self-check `#L:ok` / `#L:DIFF` of the refinement and chain theorems on every case -/
+  lrow : Option LRow := none
+
+def noDefects (D : Defects) : Bool := D == {}
+
+/-- `#L:ok` if the bytes are the encoding of the logical row -/
+def chkEnc (D : Defects) (sch : Schema) (d : Bytes) (L : Option LRow) : String :=
+  match noDefects D, L with
+  | true, some L => if encode P0 sch L == d then " #L:ok" else " #L:DIFF"
+  | _, _ => ""
+
+def chkRead (D : Defects) (s : Snapshot) (r : Option Row) (L : Option LRow) : String :=
+  match noDefects D, L with
+  | true, some L => if specVisible D s L == r then " #L:ok" else " #L:DIFF"
+  | _, _ => ""
 
 /-- typed values of an update; `none` = malformed line -/
 def typedMods (sch : Schema) : List (Nat × String) → Option Mods
@@ -148,15 +164,17 @@ def runOps (D : Defects) : List Op → Option St → List String → Option (Lis
     | none => runOps D rest (some { sch := sch, tuple := none }) ("err" :: acc)       -- NULL key: `validate` refuses
     | some ks =>
       match build D P0 sch { keys := ks, vals := vals } x0 with
-      | .ok d => runOps D rest (some { sch := sch, tuple := some d }) (showState d :: acc)
+      | .ok d =>
+        let L := some (LRow.insert ks vals x0)
+        runOps D rest (some { sch := sch, tuple := some d, lrow := L }) ((showState d ++ chkEnc D sch d L) :: acc)
       | .error e => runOps D rest (some { sch := sch, tuple := none }) (showFail e :: acc)
   | .committed s ids :: rest, st, acc =>
     runOps D rest st (("cb " ++ String.join (ids.map (fun i => if committedBefore D s i then "1" else "0"))) :: acc)
   | op :: rest, st, acc =>
     match st with
     | none => runOps D rest st ("nostate" :: acc)
-    | some { sch := sch, tuple := none } => runOps D rest st ("nostate" :: acc)
-    | some { sch := sch, tuple := some d } =>
+    | some { sch := _, tuple := none, lrow := _ } => runOps D rest st ("nostate" :: acc)
+    | some { sch := sch, tuple := some d, lrow := lr } =>
       match op with
       | .update xid mods stamped =>
         match typedMods sch mods with
@@ -166,19 +184,26 @@ def runOps (D : Defects) : List Op → Option St → List String → Option (Lis
           | .ok d1 =>
             -- `U`: the new version is stamped with its creator (what the update is meant to do)
             let d' := if stamped && !m.isEmpty then (match stamp P0 d1 xid with | .ok d2 => d2 | .error _ => d1) else d1
-            runOps D rest (some { sch := sch, tuple := some d' }) (showState d' :: acc)
+            let L := lr.map (·.update xid m)
+            runOps D rest (some { sch := sch, tuple := some d', lrow := L }) ((showState d' ++ chkEnc D sch d' L) :: acc)
           | .error e => runOps D rest st (showFail e :: acc)
       | .stamp xid =>
         match stamp P0 d xid with
-        | .ok d' => runOps D rest (some { sch := sch, tuple := some d' }) (showState d' :: acc)
+        | .ok d' =>
+          let L := lr.map (fun L => { L with cur := { L.cur with creator := xid } })
+          runOps D rest (some { sch := sch, tuple := some d', lrow := L }) ((showState d' ++ chkEnc D sch d' L) :: acc)
         | .error e => runOps D rest st (showFail e :: acc)
       | .delete xid =>
         match delete P0 d xid with
-        | .ok d' => runOps D rest (some { sch := sch, tuple := some d' }) (showState d' :: acc)
+        | .ok d' =>
+          let L := lr.map (·.delete xid)
+          runOps D rest (some { sch := sch, tuple := some d', lrow := L }) ((showState d' ++ chkEnc D sch d' L) :: acc)
         | .error e => runOps D rest st (showFail e :: acc)
       | .vacuum h =>
         match vacuumWith D P0 sch d h with
-        | .ok (freed, d') => runOps D rest (some { sch := sch, tuple := some d' }) (s!"freed {freed} {showState d'}" :: acc)
+        | .ok (freed, d') =>
+          let L := lr.map (·.vacuum h)
+          runOps D rest (some { sch := sch, tuple := some d', lrow := L }) ((s!"freed {freed} {showState d'}" ++ chkEnc D sch d' L) :: acc)
         | .error e => runOps D rest st (showFail e :: acc)
       | .pad =>
         let d' := padded P0 d
@@ -189,8 +214,8 @@ def runOps (D : Defects) : List Op → Option St → List String → Option (Lis
         | .error e => runOps D rest st (showFail e :: acc)
       | .read s =>
         match decodeFor D P0 sch s d with
-        | .ok (some r) => runOps D rest st (showRow r :: acc)
-        | .ok none => runOps D rest st ("none" :: acc)
+        | .ok (some r) => runOps D rest st ((showRow r ++ chkRead D s (some r) lr) :: acc)
+        | .ok none => runOps D rest st (("none" ++ chkRead D s none lr) :: acc)
         | .error e => runOps D rest st (showFail e :: acc)
       | _ => none
 
